@@ -42,6 +42,21 @@ table entry "relation" ("total" | "render") says with which relation the
 sorting sites sort, and is derived from the observations like the sites.
 Several batches share one process (Carrier) to keep the number of
 interpreter starts down.
+
+Round 3: (a) strings that are near-duplicates of each other (case, blanks,
+digit strings, accents, long common prefixes, texts of other values): pools
+NEAR, the elements above OrderOps!NearBase; an order relation that folds
+its operands ties them; table entry "strings" ("exact" | "folded").
+(b) a second observation channel (harness/c12_calls.py): single calls run
+by a driver process that records value, printed text AND error message of
+every call: the native sweep (every function of the base environment and
+the bundled modules applied to S / M themselves in every argument position)
+and directed calls (error messages naming the first offending member,
+reductions that do not commute, seeded random numbers).  (c) seeded random
+numbers are printed, not compared with a constant; spec/Order_Rng.tla is the
+generator's model, Order_Trace validates the printed numbers against it
+(difference = drift; the oracle is that all processes agree).  (d) uncaught
+errors below calls that were handed sets and maps: the stack-trace lines.
 """
 import json
 import math
@@ -55,6 +70,7 @@ from concurrent.futures import ThreadPoolExecutor
 
 from .common import import_ckl, MachineryError, REPO
 from .tla import run_tlc
+from . import c12_calls as calls_mod
 
 PY = "/venv/bin/python"
 
@@ -71,6 +87,8 @@ def val_of(k):
 
 
 assert len({val_of(k) for k in range(1, 9)}) == 8 and all(101 <= val_of(k) <= 110 for k in range(1, 9))
+assert len({val_of(k) for k in range(23, 33)}) == 10 and all(101 <= val_of(k) <= 110 for k in range(23, 33))
+assert len({val_of(k) for k in range(1, 11)}) == 10 and all(101 <= val_of(k) <= 110 for k in range(1, 11))
 
 # mixed-scalar pools: [(source literal, rendering in output)]
 MIXED = {
@@ -81,6 +99,33 @@ MIXED = {
     "dateint": [("3", "3"), ("100", "100"), ("date('20240101')", "20240101000000"), ("'fig'", "fig"),
                 ("'apple'", "apple"), ("'kiwi'", "kiwi"), ("'lemon'", "lemon"), ("'mango'", "mango")],
 }
+
+# pools of strings (and texts of other values) that are NEAR-DUPLICATES of each other (OrderOps!IsNear): different
+# values that an order relation which first folds its operands - lower case, trimmed, as a number, without
+# accents, abbreviated, as text - would tie.  [(source literal, rendering inside a list)]
+NEAR_BASE = 22           # OrderOps!NearBase
+_A60 = "a" * 60
+NEAR = {
+    "case": ["'Fig'", "'fig'", "'FIG'", "'fIg'", "'apple'", "'Apple'", "'Kiwi'", "'kiwi'"],
+    "blank": ["'fig'", "'fig '", "' fig'", "'fig  '", "''", "' '", "'kiwi'", "' kiwi'"],
+    "digits": ["'10'", "'9'", "'010'", "'9.0'", "'09'", "'1e1'", "'+9'", "'10 '"],
+    "accent": ["'\u00e9'", "'e\u0301'", "'e'", "'\u00c9'", "'stra\u00dfe'", "'strasse'", "'STRASSE'", "'\ufb01g'", "'fig'"],
+    "long": [f"'{_A60}{c}'" for c in "bcde"] + [f"'{_A60}'", f"'{_A60[:-1]}'"],
+    # a string and the value whose text it is
+    "text": ["'3'", "3", "'1.5'", "1.5", "'TRUE'", "TRUE", "'NULL'", "NULL", "'20240101000000'",
+             ("date('20240101')", "20240101000000")],
+}
+for _p, _m in NEAR.items():
+    MIXED[_p] = [m if isinstance(m, tuple) else (m, m) for m in _m]
+# every type that sum() cannot digest occurs once: the error names the first such member in sorted order
+MIXED["summix"] = [("3", "3"), ("20", "20"), ("1.5", "1.5"), ("-4", "-4"), ("'fig'", "'fig'"), ("//k//", "//k//"),
+                   ("date('20240101')", "20240101000000"), ("TRUE", "TRUE"), ("NULL", "NULL")]
+SUM_TYPES = {"string": "'fig'", "pattern": "//k//", "date": "20240101000000", "boolean": "TRUE", "null": "NULL"}
+# decimals of very different magnitude: their sum depends on the order of the additions
+MIXED["decmag"] = [(x, x) for x in ("10000000000000000.0", "1.0", "-10000000000000000.0", "3.0", "0.1", "0.001",
+                                    "123456789.125")]
+assert all(len(v) <= 10 for v in MIXED.values())
+
 
 # pools of members that are pairwise different but RENDER ALIKE (OrderOps!IsAlike): the order of their texts
 # ties, so a sort by the texts alone leaves them in host-set order.  `elem` writes member number w (its word is
@@ -111,7 +156,8 @@ assert ALIKE_BASE + 8 < 100
 
 # ---------------------------------------------------------------- templates
 class T:
-    def __init__(self, tid, body, prog=None, site=None, pool="str", parse="tokens", n=None, solo=False):
+    def __init__(self, tid, body, prog=None, site=None, pool="str", parse="tokens", n=None, solo=False,
+                 elems="keys"):
         self.tid = tid          # template id (violation key)
         self.body = body        # source after the prelude
         self.prog = prog        # id of the model program (OrderOps!Programs) or None = oracle only
@@ -120,6 +166,7 @@ class T:
         self.parse = parse      # "tokens" | "int"
         self.n = n              # fixed number of elements (None: 6..8)
         self.solo = solo        # needs a script of its own (script result, uncaught error)
+        self.elems = elems      # "keys": the model collection holds the key ranks; "values": the value tokens
 
 
 PRELUDE = ("require List; require Set; require Stat; require String; require Random;\n"
@@ -229,6 +276,12 @@ def templates():
     a(T("spread-call-map-stacktrace",
         "def g(apple = '', cherry = '', fig = '', kiwi = '', lemon = '', mango = '', peach = '', quince = '') "
         "error 'boom';\ng(...M);", None, solo=True))
+    # uncaught errors below calls that were handed a set / a map: the stack-trace lines show the arguments
+    # (abbreviated when long: Args.toStringAbbrev)
+    a(T("trace-set-arg", "def g(s) error 'boom';\ng(S);", "trace.set.all", "trace.set", n=3, solo=True))
+    a(T("trace-map-arg", "def g(m) error 'boom';\ng(M);", None, "trace.map", n=3, solo=True))
+    a(T("trace-args-nested", "def g3(s, m, rest...) sum(s);\ndef g2(s, m) g3(s, m, s, [m], <<s>>);\n"
+        "def g1(s) do def r = g2(s, M); return r; end;\ng1(S);", None, "trace.set", solo=True))
     a(T("destr-def-more", "def [a, b, c, d, e, u, v, w, z] = S; println([a, b, c, d, e, u, v, w, z]);",
         "destr.def.set.all", "destr.def.set"))
     # ---- rendering
@@ -267,11 +320,17 @@ def templates():
     a(T("sorted-desc", "println(sorted(list(S), cmp = fn(a, b) compare(b, a)));", None))
     # ties under key / cmp: the stable sort keeps the order in which the set (map) was enumerated
     a(T("sorted-set-key-ties", "println(sorted(S, key = fn(x) length(x) % 2));", None))
-    a(T("sorted-set-key-const", "println(sorted(S, key = fn(x) 0));", None))
+    a(T("sorted-set-key-const", "println(sorted(S, key = fn(x) 0));", "native.set", "native.set"))
     a(T("sorted-set-cmp-ties", "println(sorted(S, cmp = fn(a, b) compare(length(a) % 3, length(b) % 3)));", None))
-    a(T("sorted-map-key-ties", "println(sorted(M, key = fn(x) 0));", None))
+    a(T("sorted-map-key-ties", "println(sorted(M, key = fn(x) 0));", "aslist.map", "native.map"))
     a(T("sorted-setlist-key-ties", "println(sorted(list(S), key = fn(x) 0));", None))
     a(T("min-max-key-ties", "println([min(list(S), key = fn(x) 0), max(list(S), key = fn(x) 0)]);", None))
+    # reductions that do not commute (OrderOps!Fold = reduce with fn(a, b) b - a), over a set of ints / the values of a map
+    a(T("fold-set-of-values", "println(List->reduce(list(set(list(MN))), fn(a, b) b - a));", "aslist.set+fold", parse="int",
+        elems="values"))
+    a(T("fold-map-values", "println(List->reduce([v for v in values MN], fn(a, b) b - a));", None, parse="int"))
+    a(T("fold-strings", "println(List->reduce(S, fn(a, b) a + '/' + b)); println(List->reduce(list(M), fn(a, b) b + '/' + a));",
+        None))
     a(T("length-set", "println(length(S) + length(M));", None))
     a(T("append-remove", "def t = <<x for x in S>>; append(t, 'zz'); remove(t, 'fig'); println(t); println(list(t));", None))
     a(T("put-remove-map", "def t = <<<>>>; for e in entries M do put(t, e[0], e[1]); end; remove(t, 'fig'); "
@@ -324,8 +383,14 @@ def templates():
                        ("median-high", "Stat->median_high(list(MN))")]:
         a(T("stat-" + name, f"println({call});", None))
     # ---- random numbers: same seed, same sequence, in every process
+    # the numbers themselves are printed (an observation must not be a constant function of what it observes)
     a(T("random-seeded", "Random->set_seed(7); println([Random->random(1000) for i in range(10)]); "
-        "println(Random->random() < 2);", None))
+        "println([Random->random() for i in range(5)]); println([Random->random(5, 50) for i in range(5)]);", None))
+    # numbers drawn before set_seed differ from process to process by design; what follows set_seed must not
+    a(T("random-seed-after-draws", "println([Random->random() < 2, Random->random(10) < 10, Random->random(5, 9) < 9]); "
+        "Random->set_seed(7); println([Random->random(1000), Random->random(), Random->random(5, 50), Random->random()]); "
+        "Random->set_seed(7); println([Random->random(1000), Random->random()]);", None))
+    a(T("random-choice-one", "Random->set_seed(11); println(Random->choice(S));", "aslist.set+choice"))
     a(T("random-choice", "Random->set_seed(11); println([Random->choice(S) for i in range(6)]); "
         "println(Random->choices(S, 4)); println(Random->sample(S, 4)); println(Random->sample(list(M), 3));", None))
     # ---- mixed scalars (strings hash by seed, ints and NULL do not; the order is the language's own `<`)
@@ -341,6 +406,12 @@ def templates():
             "for k in keys t do println([k]); end;", None, pool=p))
         a(T(p + "-sorted", "println(sorted(list(S)));", None, pool=p))
         a(T(p + "-set-plus", "println(S + <<'zz'>>); println(S - <<'fig'>>);", None, pool=p))
+        a(T(p + "-println-map", "println(M);", "render.map", pool=p))
+        a(T(p + "-for-map-keys", "for k in keys M do println([k]); end;", "for.map.keys", pool=p))
+        a(T(p + "-lcompr-map-entries", "println([e for e in entries M]);", "compr.map.entries", pool=p))
+        a(T(p + "-spread-list-map", "println([...M]);", "spread.list.map", pool=p))
+        a(T(p + "-native-sorted-const", "println(sorted(S, key = fn(x) 0));", "native.set", pool=p))
+        a(T(p + "-destr-for", "for [a, b, c] in [S] do println([a, b, c]); end;", "destr.for.list", pool=p))
     # ---- members that render alike (anonymous functions, objects differing in hidden members, ...): the same
     # enumeration paths, the member identified through idof()
     for p, spec in ALIKE.items():
@@ -403,6 +474,7 @@ class Batch:
         self.tokens = tokens        # rendered text -> int token
         self.rankable = rankable    # False: the language's `<` is not a strict total order on this pool
         self.solo = solo
+        self.words = {}             # mixed pools: pool index -> the word stored under that member in M
 
     def prelude(self, order):
         lines = [PRELUDE.rstrip("\n")]
@@ -431,6 +503,7 @@ class Batch:
         else:
             pool = MIXED[self.pool]
             lines.append("def S = <<" + ", ".join(pool[r][0] for r in order) + ">>;")
+            lines.append("def M = <<<" + ", ".join(f"{pool[r][0]} => '{self.words[r]}'" for r in order) + ">>>;")
         return "\n".join(lines) + "\n"
 
     def script(self, order):
@@ -444,7 +517,9 @@ class Batch:
         return "".join(out)
 
     def solo_of(self, t):
-        return Batch(f"{self.bid}/{t.tid}", [t], self.pool, self.elems, self.orders, self.tokens, self.rankable, t.solo)
+        b = Batch(f"{self.bid}/{t.tid}", [t], self.pool, self.elems, self.orders, self.tokens, self.rankable, t.solo)
+        b.words = self.words
+        return b
 
 
 END_MARK = "println(''); println('@@END');\n"
@@ -500,6 +575,7 @@ def carriers(batches):
 
 
 _TOTAL = {}
+_WHY = {}
 
 
 def mixed_ranks(pool):
@@ -513,11 +589,27 @@ def mixed_ranks(pool):
     it = Interpreter(True, False)
     lits = [x[0] for x in MIXED[pool]]
     n = len(lits)
-    lt = [[bool(it.interpret(f"{lits[i]} < {lits[j]}", "c12").value) for j in range(n)] for i in range(n)]
+    res = None
+    try:
+        lt = [[bool(it.interpret(f"{lits[i]} < {lits[j]}", "c12").value) for j in range(n)] for i in range(n)]
+        eq = [[bool(it.interpret(f"{lits[i]} == {lits[j]}", "c12").value) for j in range(n)] for i in range(n)]
+        shown = [str(it.interpret(f"[{lits[i]}]", "c12"))[1:-1] == MIXED[pool][i][1] for i in range(n)]
+    except Exception as e:          # the order cannot even be asked: no ranks, the runs are still compared with each other
+        _WHY[pool] = f"asking the interpreter failed: {type(e).__name__}"
+        _TOTAL[pool] = None
+        return None
     ok = all(not lt[i][i] for i in range(n))
     ok = ok and all(lt[i][j] != lt[j][i] for i in range(n) for j in range(n) if i != j)
     ok = ok and all(not (lt[i][j] and lt[j][k]) or lt[i][k] for i in range(n) for j in range(n) for k in range(n))
-    res = None
+    if not ok:
+        ties = [f"{lits[i]} ~ {lits[j]}" for i in range(n) for j in range(i + 1, n) if lt[i][j] == lt[j][i]]
+        _WHY[pool] = "`<` is not a strict total order" + (f"; neither or both less: {ties[:4]}" if ties else " (a cycle)")
+    elif any(eq[i][j] for i in range(n) for j in range(n) if i != j):
+        ok = False                  # two members are equal: the sets would differ in size with the construction order
+        _WHY[pool] = "two different literals are equal"
+    elif not all(shown):
+        ok = False                  # the tokens would not be found in the output
+        _WHY[pool] = "a member is not rendered as expected"
     if ok:
         res = [sum(1 for j in range(n) if lt[j][i]) + 1 for i in range(n)]     # rank of pool[i]
     _TOTAL[pool] = res
@@ -562,8 +654,13 @@ def make_batch(bid, ts, pool, rng, norders, n=None):
     pl = MIXED[pool]
     ranks = mixed_ranks(pool)
     base = list(range(len(pl)))                       # indices into the pool
-    tokens = {pl[i][1]: (ranks[i] if ranks else i + 1) for i in base}
-    return Batch(bid, ts, pool, sorted(tokens.values()), orders_of(base, rng, norders), tokens, ranks is not None)
+    band = NEAR_BASE if pool in NEAR else 0           # near-duplicates are the elements above OrderOps!NearBase
+    elem = {i: band + (ranks[i] if ranks else i + 1) for i in base}
+    tokens = {pl[i][1]: elem[i] for i in base}
+    tokens.update({VALW[val_of(e) - 101]: val_of(e) for e in elem.values()})
+    b = Batch(bid, ts, pool, sorted(elem.values()), orders_of(base, rng, norders), tokens, ranks is not None)
+    b.words = {i: VALW[val_of(elem[i]) - 101] for i in base}
+    return b
 
 
 def make_batches(ts, rng, norders, nstr, reps):
@@ -737,7 +834,9 @@ def observe(batches, seeds, legacy_seeds):
             ts += [t for t in b.ts if (t.tid, bid) in missing]
         for bid, (b, ts) in sorted(by_batch.items()):
             if rnd == 0 and len(ts) > 1:
-                units.append(Batch(bid + "/rest", ts, b.pool, b.elems, b.orders, b.tokens, b.rankable, False))
+                rest = Batch(bid + "/rest", ts, b.pool, b.elems, b.orders, b.tokens, b.rankable, False)
+                rest.words = b.words
+                units.append(rest)
             else:
                 units += [b.solo_of(t) for t in ts]
     return obs, owner, nproc, sorted(cut)
@@ -805,8 +904,15 @@ def to_ints(b, t, o):
     text = o[0]
     if t.parse == "int":
         s = text.strip()
-        return [int(s)] if re.fullmatch(r"\d{1,9}", s) else [-1]
+        return [int(s)] if re.fullmatch(r"-?\d{1,9}", s) else [-999999]
     return tokenize(b.tokens, text)
+
+
+def model_elems(b, t):
+    """the content of the model collection the template enumerates"""
+    if t.elems == "values":
+        return sorted(val_of(r) for r in b.elems)
+    return b.elems
 
 
 def judge(run, obs, owner):
@@ -828,7 +934,7 @@ def judge(run, obs, owner):
                     # the interpreter itself failed (host exception): not an enumeration order; C13's subject
                     run.drift("template-ends-in-host-exception", {"template": tid, "stderr": o[1].strip().splitlines()[-1:]})
                     continue
-                trace_lines.append({"prog": t.prog, "elems": b.elems, "obs": to_ints(b, t, o), "n": len(where)})
+                trace_lines.append({"prog": t.prog, "elems": model_elems(b, t), "obs": to_ints(b, t, o), "n": len(where)})
                 trace_meta.append((tid, b, legacy, o, where))
     bad = validate_traces(run, trace_lines) if trace_lines else {}
     unsorted = {}
@@ -946,7 +1052,7 @@ def run(run):
         run.drift("template-cut-off-by-crash-of-an-earlier-one-rerun-alone", tid)
     for p in MIXED:
         if mixed_ranks(p) is None:
-            run.drift("language-order-not-total-on-pool", p)
+            run.drift("language-order-not-total-on-pool", {"pool": p, "why": _WHY.get(p, "")})
 
     k0 = next(k for k in sorted(obs) if k[2] is False and k[0] == batches[0].ts[0].tid)
     b0 = owner[(k0[0], k0[1])]
